@@ -312,7 +312,14 @@ def _size(case):
     return sum(len(v) for v in case.values() if isinstance(v, list))
 
 
+_TRACES = [0]
+
+
 def _exc_detail(exc):
+    """traceback text is expensive (attribute suggestions): only for the first few"""
+    _TRACES[0] += 1
+    if _TRACES[0] > 8:
+        return {"exception": repr(exc)[:300]}
     return {"exception": repr(exc)[:300], "trace": traceback.format_exc()[-600:]}
 
 
@@ -1128,8 +1135,30 @@ def check_crh(rec, case):
                 _layout(q, lay), p if parg is None else parg, T if Targ is None else Targ,
                 axis=axis_arg), dtype=float)
 
+    def lanes_pass():
+        """mechanism: do all 1-d lanes pass on their own?"""
+        ql, Tl = cm.lanes(qs, ax), cm.lanes(T, ax)
+        pl = cm.lanes(p, ax) if p.ndim > 1 else None
+        for i in range(ql.shape[0]):
+            try:
+                v = crh(ql[i].copy(), Tl[i].copy(), p if pl is None else pl[i].copy(), 0)
+            except Exception:
+                return False
+            if not abs(float(v) - 1) <= tol:
+                return False
+        return True
+
     try:
-        one = crh(qs)
+        try:
+            one = crh(qs)
+        except ContractBreach:
+            raise
+        except Exception as exc:
+            if len(shape) > 1 and _exc_key(exc, "") == "" and lanes_pass():
+                rec.violation("crh-rank2", case, dict(_exc_detail(exc), lane=0,
+                                                      shape=list(shape), axis=axis))
+                return
+            raise
         if one.shape != want_shape:
             rec.violation("crh-shape", case, {"got_shape": list(one.shape),
                                               "want_shape": list(want_shape)})
@@ -1137,19 +1166,7 @@ def check_crh(rec, case):
         dev = np.abs(one - 1)
         if np.any(~(dev <= tol)):
             j = int(np.argmax(~(dev <= tol).reshape(-1)))
-            key = "crh-saturated"
-            if len(shape) > 1:
-                # mechanism: do all 1-d lanes pass on their own?
-                ql, Tl = cm.lanes(qs, ax), cm.lanes(T, ax)
-                pl = cm.lanes(p, ax) if p.ndim > 1 else None
-                lanes_ok = True
-                for i in range(ql.shape[0]):
-                    v = crh(ql[i].copy(), Tl[i].copy(), p if pl is None else pl[i].copy(), 0)
-                    if not abs(float(v) - 1) <= tol:
-                        lanes_ok = False
-                        break
-                if lanes_ok:
-                    key = "crh-rank2"
+            key = "crh-rank2" if len(shape) > 1 and lanes_pass() else "crh-saturated"
             rec.violation(key, case, {"lane": j, "got": float(one.reshape(-1)[j]), "want": 1.0,
                                       "tol": tol, "shape": list(shape), "axis": axis})
             return
